@@ -259,14 +259,28 @@ def r04c(chk, rid='R04.c'):
         # nothing after it
         chk.ob(rid, TOK, 'Tokenizer.tokenize', 'EOF is the last statement', fn.body[-1] is par, 'tokens could follow the end marker')
     # completion branches
+    # the completed comment must be what the COMMENT production accepts
+    cy = [n for n in ast.walk(fn) if isinstance(n, ast.Yield) and isinstance(n.value, ast.Tuple) and const(n.value.elts[0]) == 'COMMENT' and text(n.value.elts[1]) != 'value']
+    if cy:
+        for y in cy:
+            st = m.enclosing_stmt(y)
+            guarded = False
+            child, p = st, m.parents.get(st)
+            while p is not None and p is not fn:
+                if isinstance(p, ast.If) and child in p.body and 'match' in text(p.test):
+                    # `match` must come from self.commentmatcher
+                    guarded = any(isinstance(a, ast.Assign) and text(a.targets[0]) == 'match' and 'self.commentmatcher(' in text(a.value) for a in ast.walk(fn) if isinstance(a, ast.Assign) and a.lineno < st.lineno and a.lineno > st.lineno - 6)
+                child, p = p, m.parents.get(p)
+            chk.ob(rid, TOK, 'Tokenizer.tokenize', f'`{text(y)[:60]}` is decided by the COMMENT production on the completed text', guarded,
+                   'the unterminated-comment test is an ad-hoc search instead of the token grammar: inputs such as "/*/ x" are misjudged')
     marks = {
-        'comment completion': lambda s: isinstance(s, ast.Assign) and text(s.targets[0]) == 'possiblecomment',
+        'comment completion': lambda s: (isinstance(s, ast.Assign) and text(s.targets[0]) == 'possiblecomment') or (isinstance(s, ast.Expr) and isinstance(s.value, ast.Yield) and isinstance(s.value.value, ast.Tuple) and const(s.value.value.elts[0]) == 'COMMENT' and text(s.value.value.elts[1]) != 'value'),
         'INVALID -> STRING completion': lambda s: isinstance(s, ast.Assign) and "'STRING'" in text(s.value) and 'found[0]' in text(s.value),
         'url( -> URI completion': lambda s: isinstance(s, ast.Assign) and text(s.targets[0]) == 'possibleuri',
     }
     for label, pred in marks.items():
         sites = [s for s in ast.walk(fn) if isinstance(s, ast.stmt) and pred(s)]
-        if len(sites) != 1:
+        if len(sites) < 1:
             raise AnalysisError(f'Tokenizer.tokenize: {label} not found')
         s = sites[0]
         guarded = False
